@@ -244,6 +244,11 @@ func (l *sparseFileLoader) loadChunk(i int) error {
 
 	c, err := l.s.GetChunk(l.chunks[i].ID)
 	if err != nil {
+		if err == io.EOF {
+			// A store can fail with io.EOF (e.g. a casync protocol session that ended).
+			// Passing it on from ReadAt would look like the regular end of the file.
+			err = io.ErrUnexpectedEOF
+		}
 		return err
 	}
 	b, err := c.Data()
